@@ -126,17 +126,24 @@ def gen(rng, n, tier):
 
 
 def run_seq(init, seq):
+    """the least p-value an auditor sees on this sequence of draws: the test is called, as in a sequential
+    audit, on every prefix of ONE sample buffer (views of the same float array), and the least overall value /
+    history entry of any call is returned.  By non-anticipation this equals the least entry of the history of the
+    whole sequence (which is what the model computes)."""
     nm = NMG.make_nm(init)
-    r = impl_call(lambda: nm.test(np.array([float(v) for v in seq], dtype=float)))
-    if isinstance(r, dict):
-        return "err:" + r["err"]
-    p, h = r
-    m = float(p)
-    for v in np.atleast_1d(h):
-        v = float(v)
-        if math.isnan(v) or math.isnan(m):
-            return float("nan")
-        m = min(m, v)
+    buf = np.array([float(v) for v in seq], dtype=float)
+    m = float("inf")
+    for k in range(1, len(buf) + 1):
+        r = impl_call(lambda: nm.test(buf[:k]))
+        if isinstance(r, dict):
+            if k == len(buf):
+                return "err:" + r["err"]
+            continue
+        p, h = r
+        for v in [float(p)] + [float(z) for z in np.atleast_1d(h)]:
+            if math.isnan(v):
+                return float("nan")
+            m = min(m, v)
     return m
 
 
